@@ -16,8 +16,26 @@ segments IN PLAY on the path (class Play): the arbitrary segment (ry, rj) of the
 callees report, and their neighbours (a shift segment moves the indices of a line by one).  A universally quantified
 precondition of a callee is proved at the arbitrary segment (universal generalisation).
 
-bytes widgets: the cell arithmetic of text_layout.py is under contract for str texts only (C03_layout2); bytes stay with
-the bounded stand-in.
+What is ASSUMED (never counted as proved):
+  * the layout object (EditLayoutProtocol): `layout()` is a pure function of its arguments and answers a layout structure
+    for the text (seg_wf for every segment) -- cross-checked concretely on StandardTextLayout / real Edit translations by
+    the static check `standard-layout-structures-are-well-formed-on-the-sample`;
+  * apply_text_layout#for-an-edit and decompose_tagmarkup#for-an-edit (canvas / markup protocols, owned by C02 / C17);
+  * calc_coords and get_cursor_coords are functions of what they read (text, layout, position, width): the callee views
+    use ONE record for two look-ups of the same cursor position in the same layout on a path (cursor_cell, cursor_of);
+  * Widget._invalidate / Widget._emit as in contracts/proto_widget.py, contracts/C10_edit.py.
+
+What is NOT claimed:
+  * a cursor offset that NO segment of the layout holds (calc_coords then answers the start of a closest segment): the
+    clauses about the reported cursor are conditional on `held`.  With StandardTextLayout that is the row of zero-width
+    characters only (known finding C10-KF1) and text cut away by 'ellipsis';
+  * a column that lies in no character cell of the target line (up / down onto a shorter line, a click in the padding):
+    calc_line_pos answers a closest position; only "a column inside a run gives the character whose cell it is" and the
+    'left' / 'right' ends are stated;
+  * that an accepted move leaves the reported cursor ON the requested line (C09's last clause): needs that no two segments
+    of a layout hold the same position, which the layout protocol does not promise -- bounded stand-ins of C09 / C10;
+  * bytes widgets: the cell arithmetic of text_layout.py is under contract for str texts only (C03_layout2); bytes stay
+    with the bounded stand-in.
 """
 import z3
 
